@@ -341,17 +341,40 @@ def Sender.exhausted (s : Sender) : Prop := ∀ c ∈ s.chans, c.queue = [] ∧ 
 
 /-! ## guards used by the theorems -/
 
-/-- a message the receiver configured with `rd` can take: non-empty, on a channel it has, within
-    that channel's capacity. -/
+/-- a message the receiver configured with `rd` can take: on a channel it has, within that
+    channel's capacity. -/
+def MsgFits (rd : List RDesc) (id : UInt8) (m : Bytes) : Prop :=
+  ∃ d ∈ rd, d.id = id ∧ m.length ≤ (mkRChan d).cap
+
+/-- … and non-empty (the guard of the delivery theorem: empty messages can be lost). -/
 def MsgOK (rd : List RDesc) (id : UInt8) (m : Bytes) : Prop :=
-  m ≠ [] ∧ ∃ d ∈ rd, d.id = id ∧ m.length ≤ (mkRChan d).cap
+  m ≠ [] ∧ MsgFits rd id m
+
+def ActFits (rd : List RDesc) : Act → Prop
+  | .send id m => MsgFits rd id m
+  | .trySend id m => MsgFits rd id m
+  | _ => True
 
 def ActOK (rd : List RDesc) : Act → Prop
   | .send id m => MsgOK rd id m
   | .trySend id m => MsgOK rd id m
   | _ => True
 
-/-- the receiver after a transport that delivered `bs` in non-empty reads. -/
+/-- a freshly started sending side. -/
 def initRun (P : Nat) (sd : List SDesc) : SRun := { snd := mkSender P sd }
+
+
+/-! ## reference reassembly (specification) -/
+
+/-- what a packet log means: per-channel bytes of the message in progress, and the completed
+    messages in order.  A message is complete exactly at a packet with `EOF = 1`. -/
+def specStep (st : (UInt8 → Bytes) × List (UInt8 × Bytes)) : Packet → (UInt8 → Bytes) × List (UInt8 × Bytes)
+  | .msg ch eof bs =>
+    if eof = 1 then (fun c => if c = ch then [] else st.1 c, st.2 ++ [(ch, st.1 ch ++ bs)])
+    else (fun c => if c = ch then st.1 ch ++ bs else st.1 c, st.2)
+  | _ => st
+
+def specAssemble (log : List Packet) : (UInt8 → Bytes) × List (UInt8 × Bytes) :=
+  log.foldl specStep (fun _ => [], [])
 
 end GnoVerif.C43
